@@ -33,6 +33,9 @@ ASSUMPTION_TEXT = {
     "[E-UUID]": "[E-UUID] a temp-file name derived from a fresh uuid4 names no existing file and is none of the file names "
                 "the program already holds",
     "[E-MD5]": "[E-MD5] hashlib.md5 has no collisions on the blobs compared",
+    "[A-NOOVERFLOW]": "[A-NOOVERFLOW] the buffered-mode runs of the public methods (C05 transparency) cover executions in which "
+                      "the buffer capacity does not force a flush inside the operation; what a forced flush does is covered by "
+                      "the clauses of _flush_buffer (it loses nothing, reports conflicts)",
     "[A-REPOINT]": "[A-REPOINT] the `_filename` of a collection does not change while it is registered in the buffer "
                    "(re-pointing a collection inside its buffered context strands its entry - observed, see DESIGN.md 11.5)",
     "[Inv.cover]": "[Inv.cover] every file with a buffer entry has a registered collection bound to it: assumed at entry of "
